@@ -3,14 +3,32 @@
                            followed by <line>:<col> of the END of the input (1 + number of LF bytes, 1 + bytes since the last LF:
                            LexDefs.count_nl / since_nl, the definitions wf_pos is stated with)
    (ParserDefs.trivia_only: a six-state automaton written from the property text, not from the parser) *)
-From Coq Require Import ZArith NArith List Bool String.
+From Coq Require Import ZArith NArith List Bool String Ascii.
 From ChaiV Require Import StrUtil LexDefs ParserDefs.
 Local Open Scope string_scope.
 
+Fixpoint span_sp (s : string) : string * string :=
+  match s with
+  | EmptyString => ("", "")
+  | String c r => if Ascii.eqb c " " then ("", r) else let '(w, rest) := span_sp r in (String c w, rest)
+  end.
+Fixpoint unhex (s : string) : option (list N) :=
+  match s with
+  | EmptyString => Some nil
+  | String a (String b r) =>
+      match hexval a, hexval b, unhex r with
+      | Some x, Some y, Some l => Some (cons (16 * x + y)%N l)
+      | _, _, _ => None
+      end
+  | _ => None
+  end.
+
+(* line splitting and hex decoding are done here, linearly (StrUtil.words / bytes_of_hex are quadratic in the line length) *)
 Definition run_line (l : string) : string :=
-  let w := words l in
-  if String.eqb (nth_word 0 w) "trivia" then
-    match bytes_of_hex (nth_word 1 w) with
+  let '(cmd, r1) := span_sp l in
+  let '(f1, _) := span_sp r1 in
+  if String.eqb cmd "trivia" then
+    match (if String.eqb f1 "-" then Some nil else unhex f1) with
     | Some b => (if trivia_only b then "TRIVIA " else "TEXT ") ++ dec_of_z (1 + count_nl b)%Z ++ ":" ++ dec_of_z (1 + Z.of_nat (since_nl b))%Z
     | None => "BADCASE"
     end
